@@ -418,7 +418,8 @@ func (p *IGMPv3MembershipReport) UnmarshalBinary(data []byte) error {
 			return err
 		}
 		p.GroupRecords = append(p.GroupRecords, *gr)
-		n += int(gr.Len())
+		// advance in int: Len() is a uint16 and is 0 for a record of exactly 65536 bytes
+		n += 8 + 4*int(gr.AuxDataLen) + 4*int(gr.NumberOfSources)
 	}
 	return nil
 }
